@@ -70,19 +70,23 @@ fn scale_poly(p: &mut Polynomial, s: f64) {
         t.coefficient *= s;
     }
 }
+/// multiply every coefficient the message lists by `s` (a power of two: exact)
+pub fn scale_function(f: &mut Function, s: f64) {
+    match f.function.as_mut() {
+        Some(v1::function::Function::Constant(c)) => *c *= s,
+        Some(v1::function::Function::Linear(l)) => scale_lin(l, s),
+        Some(v1::function::Function::Quadratic(q)) => scale_quad(q, s),
+        Some(v1::function::Function::Polynomial(p)) => scale_poly(p, s),
+        _ => {}
+    }
+}
 /// multiply every coefficient the operand's message lists by `s` (operands without listed coefficients are left alone)
 fn scale_opnd(o: &mut Opnd, s: f64) {
     match o {
         Opnd::Lin(l) => scale_lin(l, s),
         Opnd::Quad(q) => scale_quad(q, s),
         Opnd::Poly(p) => scale_poly(p, s),
-        Opnd::Func(f) => match f.function.as_mut() {
-            Some(v1::function::Function::Constant(c)) => *c *= s,
-            Some(v1::function::Function::Linear(l)) => scale_lin(l, s),
-            Some(v1::function::Function::Quadratic(q)) => scale_quad(q, s),
-            Some(v1::function::Function::Polynomial(p)) => scale_poly(p, s),
-            _ => {}
-        },
+        Opnd::Func(f) => scale_function(f, s),
         _ => {}
     }
 }
